@@ -951,7 +951,7 @@ def gen(tier, rng):
     # the same probes and random dictionaries saved and loaded by a child process under a non-UTF-8 locale
     # (one interpreter start per case: spread over the stream so that the worker pool runs them side by side)
     envs = [dict(p=PID, op='json_env', env='C', dicts=[str_probe(s) for s in probes[i:i + 16]]) for i in range(0, len(probes), 16)]
-    envs += [dict(p=PID, op='json_env', env='C', dicts=[rand_entries(rng) for _ in range(20)]) for _ in range(8 if q else 150)]
+    envs += [dict(p=PID, op='json_env', env='C', dicts=[rand_entries(rng) for _ in range(16)]) for _ in range(6 if q else 150)]
     # the text layer (Model/C18j): single strings, those with a high surrogate directly before a low one included (the
     # model says what the json library makes of them)
     cps = lambda t: [ord(c) for c in t]
